@@ -24,7 +24,7 @@ def main():
         for f in demos: shutil.copy(f, os.path.join(wt, pkg))
         rc, out = sh("git apply %s/patch.diff" % d, wt); res["applies"] = rc == 0
         rc, out = sh("go build ./...", wt); res["builds"] = rc == 0
-        run = "go test -vet=off -count=1 -run 'Seed' ./%s/" % pkg
+        run = "go test %s-vet=off -count=1 -run 'Seed' ./%s/" % ("-race " if prop == "C19" else "", pkg)
         rc, out = sh(run, wt); res["demo_with_change_fails"] = rc != 0; res["demo_with_change_tail"] = out[-600:]
         # baseline of the touched package with the change (demo files removed)
         for f in demos: os.remove(os.path.join(wt, pkg, os.path.basename(f)))
